@@ -7,20 +7,23 @@ from .common import h, rng
 ID = "C07"
 LEVEL = "exploration"
 BUILDS = ["rel"]
-BUDGET_S = {"quick": 150, "thorough": 3000}
+BUDGET_S = {"quick": 400, "thorough": 3000}
 MAXLEN = {"quick": 4, "thorough": 5}
 EXHAUSTIVE = {"quick": "all line sequences of length <=4 over the per-mode alphabets x {no regex, group regex, plain regex} x {bare, empty}",
               "thorough": "all line sequences of length <=5 over the per-mode alphabets x {no regex, group regex, plain regex} x {bare, empty}"}
 ALPHA = {
     "none": ["a", "b", "a ", "  a", "\ta\t", "", "   ", "A", "ab", "a b", "a  b", "b", "a\u3000", "\u3000"],
-    "group": ["id: a x", "id: a y", "id: b x", "  id: a", "ID: a", "", "   ", "other a", "id: ab", "id:  a", "k id: b", "id: a"],
+    "group": ["id: a x", "id: a y", "id: b x", "  id: a", "ID: a", "", "   ", "other a", "id: ab", "id:  a", "k id: b", "id: a",
+              "a id: a"],      # the key's text also occurs earlier on the line, outside the capture
+    # the regex contains the host's comment marker
+    "hash": ["#1 x", "#1 y", "#2", "  #1", "", "n 1", "1", "a#2b", "# 1", "#12", "issue #1"],
     "plain": ["a1 x", "a1 y", "b2 x", "  a1", "zz a1", "", "   ", "other", "a12", "A1", "a1", "b2"],
 }
 ALPHA["group2"] = ALPHA["group"]     # same lines, regex with unnamed capturing groups before and after `value`
 ALPHA["optional-group"] = ALPHA["group"]
 ALPHA["with-keep-sorted"] = ALPHA["none"]   # the block also carries keep-sorted (whose own diagnostics are not this check's subject)
 ALPHA["anchored"] = ALPHA["group"]   # same lines, regex anchored at both ends (line terminators must not be part of a line)
-PATTERN = {"none": None, "group": r"id: (?P<value>\w+)", "plain": r"[a-z]\d+", "group2": r"(id|ID): (?P<value>\w+)( x| y)?",
+PATTERN = {"none": None, "hash": r"#(?P<value>\d+)", "group": r"id: (?P<value>\w+)", "plain": r"[a-z]\d+", "group2": r"(id|ID): (?P<value>\w+)( x| y)?",
            "anchored": r"^\s*id: (?P<value>\w+)$", "optional-group": r"id: (?P<value>[a-z]+)|\w+",
            "with-keep-sorted": None}
 RULE = ("Bounded-exhaustive: every sequence of up to MAXLEN lines over a 12-symbol alphabet (repeated keys, keys differing "
@@ -43,7 +46,7 @@ def _attrs(mode, bare):
 def plan(tier, seed):
     jobs = []
     maxlen = MAXLEN[tier]
-    for mode in ("none", "group", "plain", "group2", "anchored", "optional-group", "with-keep-sorted"):
+    for mode in ("none", "group", "plain", "group2", "anchored", "optional-group", "with-keep-sorted", "hash"):
         for bare in ((True, False) if mode in ("none", "with-keep-sorted") else (False,)):
             jobs.append({"k": "enum", "mode": mode, "bare": bare, "len": (0, min(3, maxlen)), "first": None})
             for L in range(4, maxlen + 1):
@@ -130,14 +133,22 @@ def run_job(job, ctx):
     else:
         r = rng("c07", job["seed"], job["i"])
         blocks = [_random_block(r) for _ in range(40)]
+        _second_validator(blocks)
         eol = "\r\n" if job["i"] % 3 == 0 else "\n"
-        for c in vbatch.run_batch(ctx, blocks, "hash", "keep-unique", model, eol=eol, bom=(job["i"] % 3 == 1), sig_prefix="C07",
+        for c in vbatch.run_batch(ctx, blocks, "cm" if job["i"] % 4 == 2 else "hash", "keep-unique", model, eol=eol, bom=(job["i"] % 3 == 1), ignore_codes=("line-count",), sig_prefix="C07",
                                   nontrivial_fn=_nontrivial, sets_fn=_sets):
             acc.add(c)
     return acc.to_cases(h(job))
 
 
 WORDS = ["alpha", "beta", "Beta", "gamma", "épée", "epee", "日本", "日本語", "ß", "ss", "a", "aa", "b", "_x", "10", "010", "ñ", "n"]
+
+
+def _second_validator(blocks):
+    """Every fifth block also carries a violated rule of another synchronous validator: two validators report on the same file."""
+    for j, b in enumerate(blocks):
+        if j % 5 == 2 and any(l.strip() for l in b.lines):      # not the first block: the main validator is detected (and joined) first
+            b.attrs = list(b.attrs) + [("line-count", "<1")]
 
 
 def _random_block(r):
